@@ -1103,4 +1103,45 @@ theorem orig_write_blocked (B : Path) (s : St) (files : Files)
     look (stepWith origSteps B s (.write files)).fs (targetNew B) ≠ none :=
   orig_runOps_blocked B s.fs s.prev s.clock files h
 
+/-! ### residue of a call that was itself interrupted -/
+
+/-- `fs'` differs from `fs` only inside version directories that exist (id below the clock) and
+that the target does not point to: what a `WriteFile` or `RemoveAll` killed half-way can leave
+(`WriteFile` only writes into the not yet linked new version, `RemoveAll` only deletes the
+version the target no longer points to). -/
+def ResidueOnly (B : Path) (clock : Nat) (fs fs' : FS) : Prop :=
+  ∀ q, look fs' q = look fs q ∨
+    ∃ n r, q = B ++ .ver n :: r ∧ n < clock ∧ look fs (target B) ≠ some (.link (verDir B n))
+
+theorem inv_of_residue (B : Path) (s : St) (H : List Files) (fs' : FS) (h : Inv B s H)
+    (hd : ResidueOnly B s.clock s.fs fs') :
+    Inv B { s with fs := fs', prev := none } H := by
+  obtain ⟨hW, _⟩ := h
+  have same : ∀ q, (∀ n r, q ≠ B ++ Name.ver n :: r) → look fs' q = look s.fs q := by
+    intro q hq
+    rcases hd q with h | ⟨n, r, e, _⟩
+    · exact h
+    · exact absurd e (hq n r)
+  have hT : look fs' (target B) = look s.fs (target B) := same _ (by intro n r; simp [target])
+  have hTN : look fs' (targetNew B) = look s.fs (targetNew B) := same _ (by intro n r; simp [targetNew])
+  refine ⟨⟨?_, ?_, ?_, ?_⟩, by intro n hn; simp at hn⟩
+  · intro q hq
+    rw [same q (fun n r e => not_ext_prefix B _ r (e ▸ hq))]
+    exact hW.chain q hq
+  · intro n hn r
+    rcases hd (B ++ .ver n :: r) with h | ⟨m, r', e, hm, _⟩
+    · rw [h]; exact hW.fresh n hn r
+    · have : n = m := (by simpa using (List.append_cancel_left e) : n = m ∧ _).1
+      simp only [] at hn; omega
+  · rcases hW.tgt with h | ⟨n, fl, hn, hmem, hl, hdir⟩
+    · left; rw [hT]; exact h
+    · right
+      refine ⟨n, fl, hn, hmem, by rw [hT]; exact hl, hdir.transport ?_⟩
+      intro r
+      rcases hd (B ++ .ver n :: r) with h | ⟨m, r', e, _, hne⟩
+      · exact h
+      · have : n = m := (by simpa using (List.append_cancel_left e) : n = m ∧ _).1
+        subst this; exact absurd hl hne
+  · rw [hTN]; exact hW.tnew
+
 end Kit.Dir
